@@ -120,3 +120,25 @@ def gen_cplx(N):
     out.append(('cexp', np.exp(2j * np.pi * 0.2 * n) + 0.2 * weylc(N, 7)))
     out.append(('car1', (0.7 * np.exp(1j * np.pi / 3)) ** n + 0.1 * weylc(N, 8)))
     return out
+
+
+def tones_real(N):
+    """Fixed real tone-in-(tiny)-noise records: every combination of f in {0.1, 0.23, 0.4} x eps in {0, 1e-3, 0.1}."""
+    n = np.arange(N, dtype=float)
+    out = []
+    for f in (0.1, 0.23, 0.4):
+        for eps in (0.0, 1e-3, 0.1):
+            out.append(('tone%g+%g' % (f, eps), np.cos(2 * np.pi * f * n + 0.3) + eps * eta(N)))
+    out.append(('2tones', np.cos(2 * np.pi * 0.1 * n) + 0.5 * np.sin(2 * np.pi * 0.31 * n) + 0.05 * eta(N)))
+    out.append(('ramp+tone', 0.05 * n + np.cos(2 * np.pi * 0.2 * n) + 0.05 * eta(N)))
+    return out
+
+
+def tones_cplx(N):
+    n = np.arange(N, dtype=float)
+    out = []
+    for f in (0.1, -0.23, 0.4):
+        for eps in (0.0, 1e-3, 0.1):
+            out.append(('ctone%g+%g' % (f, eps), np.exp(2j * np.pi * f * n + 0.3j) + eps * eta(N, True)))
+    out.append(('c2tones', np.exp(2j * np.pi * 0.1 * n) + 0.5j * np.exp(-2j * np.pi * 0.31 * n) + 0.05 * eta(N, True)))
+    return out
